@@ -76,6 +76,9 @@ impl Path {
                 PathOp::QuadTo(cpt, pt) => {
                     if cur_pt.is_none() {
                         start_pt = Some(cpt);
+                        // the subpath starts at the control point: keep that start in the output,
+                        // which would otherwise begin at the first flattened vertex
+                        flattened.ops.push(PathOp::MoveTo(cpt));
                     }
                     let start = cur_pt.unwrap_or(cpt);
                     let c = QuadraticBezierSegment {
@@ -91,6 +94,7 @@ impl Path {
                 PathOp::CubicTo(cpt1, cpt2, pt) => {
                     if cur_pt.is_none() {
                         start_pt = Some(cpt1);
+                        flattened.ops.push(PathOp::MoveTo(cpt1));
                     }
                     let start = cur_pt.unwrap_or(cpt1);
                     let c = CubicBezierSegment {
